@@ -1071,6 +1071,29 @@ func genC10(g *G) {
 				probes = append(probes, ps...)
 			}
 			g.emit("bndcu", ids(cu), ptsTok(probes))
+		case k < 17 && r.Intn(6) == 0:
+			// a strip around the equator that crosses the ANTIMERIDIAN (its longitude interval is inverted) containing a thin triangle
+			// with a nearly antipodal edge (whose own bound is full in longitude): ExpandForSubregions of the strip's bound must cover it
+			// (seeded change C10_6: longitude span of an inverted interval computed as Hi - Lo)
+			ll := func(lat, lng float64) s2.Point { return s2.PointFromLatLng(s2.LatLngFromDegrees(lat, lng)) }
+			w := 0.5 + 3*r.Float()        // half height of the strip, degrees
+			l0 := 40 + 60*r.Float()       // the strip runs from +l0 through 180 to -l0
+			sh := (r.Float()*2 - 1) * 20  // both loops rotated about the z axis by sh degrees would move the crossing: keep |sh| small
+			A := []s2.Point{ll(-w, l0+sh), ll(-w, 130+sh), ll(-w, -150+sh), ll(-w, -l0+sh), ll(w, -l0+sh), ll(w, -150+sh), ll(w, 130+sh), ll(w, l0+sh)}
+			e := math.Pow(10, -13+10*r.Float())
+			q := l0 + 5 + (80-l0)*r.Float()*0.5
+			B := []s2.Point{ll(0.1*w, q+sh), ll(0, 180+sh), ll(-0.1*w, q-180+e+sh)}
+			if !c04Valid(A) || !c04Valid(B) || !c04LoopsDisjoint([][]s2.Point{A, B}) {
+				continue
+			}
+			la, lb := s2.LoopFromPoints(c04Copy(A)), s2.LoopFromPoints(c04Copy(B))
+			ok := !s2.VerifLoopBruteForceContainsPoint(lb, A[0])
+			for _, v := range B {
+				ok = ok && s2.VerifLoopBruteForceContainsPoint(la, v)
+			}
+			if ok {
+				g.emit("bndsub", ptsTok(A), ptsTok(B))
+			}
 		case k < 17:
 			// nested loops A ⊇ B (B strictly inside A; the oracle re-checks exactly)
 			c := g.c04Center()
